@@ -34,6 +34,13 @@ func (o *ObsC02) AfterOp(x *Exec, i int, op Op, res *OpResult) *vcore.Failure {
 	}
 	if op.K == "apirelease" && res.Entry != nil && res.HTTPCode == 200 {
 		o.released[res.Entry.IP] = true
+		// the administrator ended the reservation: the identity that held this IP has no claim on it any more (the marker
+		// above is dropped as soon as another identity is bound with the IP, so forget the claim itself)
+		for k, v := range o.lastIP {
+			if v == res.Entry.IP {
+				delete(o.lastIP, k)
+			}
+		}
 	}
 	if res.BoundNow && res.Pod != nil {
 		p := res.Pod
